@@ -32,6 +32,7 @@ type config struct {
 	viaExtractRates bool // the rates are supplied per request through the ExtractRates option
 	capacity        int  // >0: Capacity option; the model then also drives a second source
 	extraAmounts    []int64
+	c13only         bool // burst above 5 x average: outside the premise of C03's bound, explored for C13 only
 	magnitudes      bool // configurations of unusual magnitude: explored for C03 (both tiers) and, because the continuation probes multiply their cost, for C13 in the thorough tier only
 }
 
@@ -481,6 +482,8 @@ func configs(tier string) []config {
 	out = append(out, config{name: "1s:1/1@0s+Capacity(2)", rates: sets[0].rates, capacity: 2})
 	// a fine-grained rate: one token every 250 microseconds (delays far below a millisecond)
 	out = append(out, config{name: "1s:4000/2@0s", rates: []rateSpec{{S, 4000, 2}}, magnitudes: true})
+	// a deep burst (more than ten times the average): waits of more than ten periods are advertised
+	out = append(out, config{name: "1s:1/12@0s", rates: []rateSpec{{S, 1, 12}}, extraAmounts: []int64{11}, c13only: true})
 	// large magnitudes: an hourly quota of 36 million units (one token every 100 microseconds), requests of millions
 	out = append(out, config{name: "1h:36000000/36000000@0s", rates: []rateSpec{{3600 * S, 36_000_000, 36_000_000}}, extraAmounts: []int64{3_000_000, 9_000_000}, magnitudes: true})
 	out = append(out, config{name: "2s:1/2@300ms+Capacity(2)", rates: sets[4].rates, phase: 300 * time.Millisecond, capacity: 2})
@@ -514,6 +517,9 @@ func Run(tier string, sh lib.Shard, rep *lib.Report) {
 		if cfg.magnitudes && rep.Property != "C03" && tier != "thorough" {
 			continue
 		}
+		if cfg.c13only && rep.Property == "C03" {
+			continue
+		}
 		// every configuration is explored by all workers together (distributed BFS by state hash)
 		m := model(cfg, tier, true, 0)
 		m.MaxStates = cap
@@ -533,6 +539,10 @@ func Run(tier string, sh lib.Shard, rep *lib.Report) {
 		r2 := m2.RunDistributed(rep, sh, gang)
 		rep.Add("states["+m2.Name+"]", r2.States)
 	}
+	if rep.Property == "C03" {
+		runGrow(tier, sh, rep)
+		rep.Require("requests_after_the_rate_set_grew")
+	}
 	rep.Bounds["searches"] = results
 	rep.Nontrivial = rep.States
 	// keep only this property's violations
@@ -547,6 +557,9 @@ func Run(tier string, sh lib.Shard, rep *lib.Report) {
 
 func Replay(rp map[string]any) (bool, string) {
 	name, _ := rp["config"].(string)
+	if name == "grow" {
+		return replayGrow(rp)
+	}
 	prop, _ := rp["property"].(string)
 	for _, tier := range []string{"quick", "thorough"} {
 		for _, cfg := range configs(tier) {
